@@ -47,6 +47,13 @@ func guard(f func() any) (res any) {
 }
 
 func init() {
+	/* optional second/third element of a step: a repeat count (the run is observed once, at its end) */
+	count := func(step []any, at int) int {
+		if len(step) > at {
+			return I(Op{"v": step[at]}, "v")
+		}
+		return 1
+	}
 	execs["history"] = func(op Op) any {
 		h := history.History[int]{}
 		obs := []any{}
@@ -55,10 +62,20 @@ func init() {
 			switch step[0].(string) {
 			case "add":
 				h.Add(I(Op{"v": step[1]}, "v"))
+			case "adds":
+				/* ["adds", first, n]: n pages first, first+1, … opened one after the other */
+				first := I(Op{"v": step[1]}, "v")
+				for k, n := 0, count(step, 2); k < n; k++ {
+					h.Add(first + k)
+				}
 			case "back":
-				h.Back()
+				for k, n := 0, count(step, 1); k < n; k++ {
+					h.Back()
+				}
 			case "forward":
-				h.Forward()
+				for k, n := 0, count(step, 1); k < n; k++ {
+					h.Forward()
+				}
 			}
 			cur := guard(func() any { return h.Current() })
 			obs = append(obs, []any{h.IsEmpty(), cur})
@@ -66,7 +83,20 @@ func init() {
 		return obs
 	}
 	execs["feed"] = func(op Op) any {
-		mk := func(v any) pub.Tangible { return &fakeItem{label: fmt.Sprint(I(Op{"v": v}, "v"))} }
+		/* "shared": one item per label, so that equal labels are the identical pointer */
+		shared := map[int]pub.Tangible{}
+		mk := func(v any) pub.Tangible {
+			n := I(Op{"v": v}, "v")
+			if B(op, "shared") {
+				if t, ok := shared[n]; ok {
+					return t
+				}
+				t := &fakeItem{label: fmt.Sprint(n)}
+				shared[n] = t
+				return t
+			}
+			return &fakeItem{label: fmt.Sprint(n)}
+		}
 		mkl := func(v any) []pub.Tangible {
 			out := []pub.Tangible{}
 			for _, x := range v.([]any) {
@@ -74,21 +104,35 @@ func init() {
 			}
 			return out
 		}
+		/* a batch first, first+1, …, first+n-1 */
+		mkn := func(first any, n int) []pub.Tangible {
+			out := make([]pub.Tangible, 0, n)
+			f0 := I(Op{"v": first}, "v")
+			for k := 0; k < n; k++ {
+				out = append(out, mk(f0+k))
+			}
+			return out
+		}
 		initv := L(op, "init")
 		var f *feed.Feed
-		if initv[0].(string) == "create" {
+		switch initv[0].(string) {
+		case "create":
 			f = feed.Create(mk(initv[1]))
-		} else {
+		case "createn":
+			f = feed.CreateAndAppend(mkn(initv[1], count(initv, 2)))
+		default:
 			f = feed.CreateAndAppend(mkl(initv[1]))
 		}
 		window := I(op, "window")
+		row := func(off int) any {
+			c := f.Contains(off)
+			g := guard(func() any { return label(f.Get(off)) })
+			return []any{c, f.IsParent(off), f.IsChild(off), g}
+		}
 		observe := func() any {
 			rows := []any{}
 			for off := -window; off <= window; off++ {
-				off := off
-				c := f.Contains(off)
-				g := guard(func() any { return label(f.Get(off)) })
-				rows = append(rows, []any{c, f.IsParent(off), f.IsChild(off), g})
+				rows = append(rows, row(off))
 			}
 			return []any{label(f.Current()), rows}
 		}
@@ -100,12 +144,28 @@ func init() {
 				f.Append(mkl(step[1]))
 			case "prepend":
 				f.Prepend(mkl(step[1]))
+			case "appendn":
+				f.Append(mkn(step[1], count(step, 2)))
+			case "prependn":
+				f.Prepend(mkn(step[1], count(step, 2)))
 			case "up":
-				f.MoveUp()
+				for k, n := 0, count(step, 1); k < n; k++ {
+					f.MoveUp()
+				}
 			case "down":
-				f.MoveDown()
+				for k, n := 0, count(step, 1); k < n; k++ {
+					f.MoveDown()
+				}
 			case "center":
 				f.MoveToCenter()
+			case "probe":
+				/* lookups at the given offsets (far outside, at the very ends) instead of the window */
+				rows := []any{}
+				for _, o := range step[1].([]any) {
+					rows = append(rows, row(I(Op{"v": o}, "v")))
+				}
+				obs = append(obs, []any{label(f.Current()), rows})
+				continue
 			}
 			obs = append(obs, observe())
 		}
@@ -130,7 +190,31 @@ func genC18(r *rand.Rand, n int, emit func(Op)) {
 	}
 	for i := 0; i < n; i++ {
 		next = 0
-		if r.Intn(2) == 0 {
+		/* the structured shapes (deep histories, long runs, large batches, walks to the ends,
+		   repeated labels) take one case in four; the rest is the unstructured random walk */
+		switch weighted(r, 30, 30, 6, 3, 3, 3, 3, 3, 3) {
+		case 2:
+			emit(genDeepHistory(r))
+			continue
+		case 3:
+			emit(genHugeHistory(r))
+			continue
+		case 4:
+			emit(genRepeatedHistory(r))
+			continue
+		case 5:
+			emit(genBigFeed(r))
+			continue
+		case 6:
+			emit(genAlternatingFeed(r))
+			continue
+		case 7:
+			emit(genFeedTour(r))
+			continue
+		case 8:
+			emit(genRepeatedFeed(r))
+			continue
+		case 0:
 			l := r.Intn(40)
 			if r.Intn(10) == 0 {
 				l = r.Intn(200)
@@ -147,7 +231,7 @@ func genC18(r *rand.Rand, n int, emit func(Op)) {
 				}
 			}
 			emit(Op{"op": "history", "seq": seq})
-		} else {
+		default:
 			var initv []any
 			if r.Intn(2) == 0 {
 				initv = []any{"create", fresh()}
@@ -173,6 +257,413 @@ func genC18(r *rand.Rand, n int, emit func(Op)) {
 			emit(Op{"op": "feed", "init": initv, "seq": seq, "window": 4})
 		}
 	}
+}
+
+/*
+A deep history, every step observed: many pages opened in a row, then runs of back/forward that
+reach and overshoot both ends (back to the very first page and beyond, then a new page there),
+with short bursts of new pages in between.  `depth`/`pos` only steer the run lengths.
+*/
+func genDeepHistory(r *rand.Rand) Op {
+	next := 0
+	seq := []any{}
+	depth, pos := 0, 0
+	add := func() {
+		next++
+		seq = append(seq, []any{"add", next})
+		if depth == 0 {
+			depth, pos = 1, 0
+		} else {
+			pos++
+			depth = pos + 1
+		}
+	}
+	if r.Intn(8) == 0 {
+		/* moves before anything was ever opened */
+		for k := r.Intn(4); k >= 0; k-- {
+			seq = append(seq, []any{pick(r, []string{"back", "forward"})})
+		}
+	}
+	for k := 20 + r.Intn(pick(r, []int{40, 200, 500})); k > 0; k-- {
+		add()
+	}
+	for phase := 2 + r.Intn(8); phase > 0 && len(seq) < 1500; phase-- {
+		switch weighted(r, 4, 4, 3, 2) {
+		case 0:
+			/* back: to the very start and past it, or part of the way */
+			run := pos + r.Intn(4)
+			if r.Intn(3) == 0 && pos > 0 {
+				run = 1 + r.Intn(pos)
+			}
+			for k := 0; k < run; k++ {
+				seq = append(seq, []any{"back"})
+			}
+			pos -= run
+			if pos < 0 {
+				pos = 0
+			}
+		case 1:
+			run := depth - 1 - pos + r.Intn(4)
+			if r.Intn(3) == 0 && depth-1-pos > 0 {
+				run = 1 + r.Intn(depth-1-pos)
+			}
+			for k := 0; k < run; k++ {
+				seq = append(seq, []any{"forward"})
+			}
+			pos += run
+			if pos > depth-1 {
+				pos = depth - 1
+			}
+		case 2:
+			for k := 1 + r.Intn(3); k > 0; k-- {
+				add()
+			}
+		case 3:
+			/* jitter around the current place */
+			for k := 2 + r.Intn(12); k > 0; k-- {
+				if r.Intn(2) == 0 {
+					seq = append(seq, []any{"back"})
+					if pos > 0 {
+						pos--
+					}
+				} else {
+					seq = append(seq, []any{"forward"})
+					if pos < depth-1 {
+						pos++
+					}
+				}
+			}
+		}
+	}
+	return Op{"op": "history", "seq": seq}
+}
+
+/* Thousands of pages and runs of tens of thousands of moves, observed at the end of each run. */
+func genHugeHistory(r *rand.Rand) Op {
+	next := 1
+	seq := []any{}
+	big := func() int {
+		return pick(r, []int{100, 127, 128, 255, 256, 257, 1000, 1023, 1024, 1025, 2000, 4096}) + r.Intn(3) - 1
+	}
+	for phase := 3 + r.Intn(10); phase > 0; phase-- {
+		switch weighted(r, 3, 3, 3, 1, 1, 1) {
+		case 0:
+			k := big()
+			if next+k > 6000 {
+				k = 1 + r.Intn(5)
+			}
+			seq = append(seq, []any{"adds", next, k})
+			next += k
+		case 1:
+			seq = append(seq, []any{"back", pick(r, []int{1, 2, big(), big(), next, next + 1, 70000})})
+		case 2:
+			seq = append(seq, []any{"forward", pick(r, []int{1, 2, big(), big(), next, next + 1, 70000})})
+		case 3:
+			seq = append(seq, []any{"add", next})
+			next++
+		case 4:
+			seq = append(seq, []any{"back"})
+		case 5:
+			seq = append(seq, []any{"forward"})
+		}
+	}
+	return Op{"op": "history", "seq": seq}
+}
+
+/* The same few pages opened again and again: two entries can only be told apart by their place. */
+func genRepeatedHistory(r *rand.Rand) Op {
+	seq := []any{}
+	pool := 1 + r.Intn(3)
+	for k := r.Intn(60); k > 0; k-- {
+		switch weighted(r, 4, 3, 3) {
+		case 0:
+			seq = append(seq, []any{"add", 1 + r.Intn(pool)})
+		case 1:
+			seq = append(seq, []any{"back"})
+		case 2:
+			seq = append(seq, []any{"forward"})
+		}
+	}
+	return Op{"op": "history", "seq": seq}
+}
+
+/* what the feed generators keep track of to aim their offsets: bounds (exclusive) and cursor */
+type feedShadow struct{ lower, upper, index int }
+
+func (s *feedShadow) contains(off int) bool {
+	return s.index+off < s.upper && s.index+off > s.lower
+}
+
+/* offsets just inside and outside both ends, around the opened item, and far away */
+func (s *feedShadow) probes(r *rand.Rand) []any {
+	out := []any{}
+	for _, p := range []int{s.lower - 1, s.lower, s.lower + 1, s.lower + 2, -1, 0, 1, s.upper - 2, s.upper - 1, s.upper, s.upper + 1} {
+		out = append(out, p-s.index)
+	}
+	for _, far := range []int{1 << 15, 1<<16 - 1, 1 << 16, 1<<31 - 1, 1 << 31, 1 << 32, 1 << 53, 1 << 62} {
+		if r.Intn(3) == 0 {
+			out = append(out, far, -far)
+		}
+	}
+	out = append(out, r.Intn(200000)-100000)
+	return out
+}
+
+func feedInit(r *rand.Rand, s *feedShadow, next *int) []any {
+	switch r.Intn(4) {
+	case 0:
+		*s = feedShadow{-1, 1, 0}
+		*next++
+		return []any{"create", *next}
+	case 1:
+		*s = feedShadow{0, 1, 1}
+		return []any{"createlist", []any{}}
+	default:
+		k := pick(r, []int{1, 2, 3, 10, 500, 3000})
+		*s = feedShadow{0, 1 + k, 1}
+		first := *next + 1
+		*next += k
+		return []any{"createn", first, k}
+	}
+}
+
+/* Batches of thousands in one call, walks of tens of thousands of moves, lookups aimed at the ends. */
+func genBigFeed(r *rand.Rand) Op {
+	var s feedShadow
+	next := 0
+	initv := feedInit(r, &s, &next)
+	seq := []any{[]any{"probe", s.probes(r)}}
+	size := func() int {
+		return pick(r, []int{0, 1, 2, 255, 256, 1000, 1024, 4096, 5000, 32767, 32768, 65535, 65536, 70000}) + r.Intn(3)
+	}
+	total := 0
+	for phase := 3 + r.Intn(10); phase > 0; phase-- {
+		switch weighted(r, 3, 3, 2, 2, 2) {
+		case 0:
+			k := size()
+			if total+k > 200000 {
+				k = r.Intn(4)
+			}
+			total += k
+			seq = append(seq, []any{"appendn", next + 1, k})
+			next += k
+			s.upper += k
+		case 1:
+			k := size()
+			if total+k > 200000 {
+				k = r.Intn(4)
+			}
+			total += k
+			seq = append(seq, []any{"prependn", next + 1, k})
+			next += k
+			s.lower -= k
+		case 2:
+			room := s.index - s.lower - 1
+			run := pick(r, []int{1, room - 1, room, room + 1, room + 5, 100000, 1 + r.Intn(room+2)})
+			if run < 1 {
+				run = 1
+			}
+			seq = append(seq, []any{"up", run})
+			if run > room {
+				run = room
+			}
+			if run > 0 {
+				s.index -= run
+			}
+		case 3:
+			room := s.upper - 1 - s.index
+			run := pick(r, []int{1, room - 1, room, room + 1, room + 5, 100000, 1 + r.Intn(room+2)})
+			if run < 1 {
+				run = 1
+			}
+			seq = append(seq, []any{"down", run})
+			if run > room {
+				run = room
+			}
+			if run > 0 {
+				s.index += run
+			}
+		case 4:
+			seq = append(seq, []any{"center"})
+			if s.contains(-s.index) {
+				s.index = 0
+			}
+		}
+		seq = append(seq, []any{"probe", s.probes(r)})
+	}
+	return Op{"op": "feed", "init": initv, "seq": seq, "window": 2}
+}
+
+/* Hundreds of small appends and prepends (empty ones included) taking turns with single moves. */
+func genAlternatingFeed(r *rand.Rand) Op {
+	next := 0
+	var initv []any
+	if r.Intn(2) == 0 {
+		next++
+		initv = []any{"create", next}
+	} else {
+		k := r.Intn(3)
+		l := make([]any, k)
+		for i := range l {
+			next++
+			l[i] = next
+		}
+		initv = []any{"createlist", l}
+	}
+	seq := []any{}
+	small := func() []any {
+		k := r.Intn(3)
+		out := make([]any, k)
+		for i := range out {
+			next++
+			out[i] = next
+		}
+		return out
+	}
+	bias := r.Intn(3) /* which way the cursor drifts */
+	for k := 100 + r.Intn(300); k > 0; k-- {
+		switch weighted(r, 3, 3, 2+2*(bias%2), 2+2*(bias/2), 1) {
+		case 0:
+			seq = append(seq, []any{"append", small()})
+		case 1:
+			seq = append(seq, []any{"prepend", small()})
+		case 2:
+			seq = append(seq, []any{"up"})
+		case 3:
+			seq = append(seq, []any{"down"})
+		case 4:
+			seq = append(seq, []any{"center"})
+		}
+	}
+	return Op{"op": "feed", "init": initv, "seq": seq, "window": 3}
+}
+
+/*
+A feed of some dozens of items; the cursor walks step by step to one end and past it, returns
+
+	to the centre from wherever it is, walks to the other end.
+*/
+func genFeedTour(r *rand.Rand) Op {
+	var s feedShadow
+	next := 0
+	var initv []any
+	switch r.Intn(3) {
+	case 0:
+		next++
+		initv = []any{"create", next}
+		s = feedShadow{-1, 1, 0}
+	case 1:
+		initv = []any{"createlist", []any{}}
+		s = feedShadow{0, 1, 1}
+	default:
+		k := 1 + r.Intn(30)
+		initv = []any{"createn", next + 1, k}
+		next += k
+		s = feedShadow{0, 1 + k, 1}
+	}
+	seq := []any{}
+	if r.Intn(4) != 0 {
+		k := r.Intn(60)
+		seq = append(seq, []any{"appendn", next + 1, k})
+		next += k
+		s.upper += k
+	}
+	if r.Intn(4) != 0 {
+		k := r.Intn(60)
+		seq = append(seq, []any{"prependn", next + 1, k})
+		next += k
+		s.lower -= k
+	}
+	walk := func(dir string, run int) {
+		for k := 0; k < run; k++ {
+			seq = append(seq, []any{dir})
+		}
+		if dir == "up" {
+			if room := s.index - s.lower - 1; run > room {
+				run = room
+			}
+			if run > 0 {
+				s.index -= run
+			}
+		} else {
+			if room := s.upper - 1 - s.index; run > room {
+				run = room
+			}
+			if run > 0 {
+				s.index += run
+			}
+		}
+	}
+	for leg := 2 + r.Intn(5); leg > 0 && len(seq) < 600; leg-- {
+		switch r.Intn(4) {
+		case 0:
+			walk("up", s.index-s.lower-1+r.Intn(3))
+		case 1:
+			walk("down", s.upper-1-s.index+r.Intn(3))
+		case 2:
+			walk(pick(r, []string{"up", "down"}), 1+r.Intn(20))
+		case 3:
+			/* the feed grows while the cursor is away from the centre */
+			k := r.Intn(4)
+			if r.Intn(2) == 0 {
+				seq = append(seq, []any{"appendn", next + 1, k})
+				s.upper += k
+			} else {
+				seq = append(seq, []any{"prependn", next + 1, k})
+				s.lower -= k
+			}
+			next += k
+		}
+		seq = append(seq, []any{"probe", s.probes(r)})
+		if r.Intn(2) == 0 {
+			seq = append(seq, []any{"center"})
+			if s.contains(-s.index) {
+				s.index = 0
+			}
+			seq = append(seq, []any{"probe", s.probes(r)})
+		}
+	}
+	return Op{"op": "feed", "init": initv, "seq": seq, "window": 2}
+}
+
+/*
+Items that look the same (labels from a pool of one to three; with "shared" they are the very
+
+	same item): which of them a position holds can be told by neighbours and place only.
+*/
+func genRepeatedFeed(r *rand.Rand) Op {
+	pool := 1 + r.Intn(3)
+	lab := func() int { return 1 + r.Intn(pool) }
+	labs := func(max int) []any {
+		k := r.Intn(max + 1)
+		out := make([]any, k)
+		for i := range out {
+			out[i] = lab()
+		}
+		return out
+	}
+	var initv []any
+	if r.Intn(2) == 0 {
+		initv = []any{"create", lab()}
+	} else {
+		initv = []any{"createlist", labs(4)}
+	}
+	seq := []any{}
+	for k := r.Intn(40); k > 0; k-- {
+		switch weighted(r, 3, 3, 3, 3, 1) {
+		case 0:
+			seq = append(seq, []any{"append", labs(4)})
+		case 1:
+			seq = append(seq, []any{"prepend", labs(4)})
+		case 2:
+			seq = append(seq, []any{"up"})
+		case 3:
+			seq = append(seq, []any{"down"})
+		case 4:
+			seq = append(seq, []any{"center"})
+		}
+	}
+	return Op{"op": "feed", "init": initv, "seq": seq, "window": 5, "shared": r.Intn(2) == 0}
 }
 
 /* all history sequences over {add, back, forward} up to length n (n is the length bound) */
